@@ -63,6 +63,11 @@ int  live_tasks();                  // tasks not DONE, excluding the driver
 int64_t now_ns();
 void advance(int64_t dt_ns);        // driver (or any task) sleeps in simulated time
 void settle();                      // wait until nobody else can run at the current instant
+// like settle(), but pred is evaluated (on whichever task is running) at every scheduling point; as soon as it holds the
+// caller is resumed at once, in the middle of whatever the other tasks were doing. Returns true if pred fired, false
+// if quiescence was reached first (max_ns = 0) or max_ns of simulated time passed (max_ns > 0: the caller sleeps instead
+// of waiting for quiescence). pred must not draw from the PRNG or read a clock.
+bool settle_watch(const std::function<bool()>& pred, int64_t max_ns = 0);
 bool settle_until(const std::function<bool()>& pred, int64_t max_ns, int64_t step_ns = 1000000); // settle/advance until pred
 
 // scheduling points
